@@ -254,18 +254,22 @@ class GarbageCollector:
                 f"Aborting GC: cannot list files under {prefix}: {e}"
             ) from e
 
+        # Independent guard against the #45 class of bug: a listed path that
+        # escapes the table root can never be matched against the reachable
+        # set, so every live file would look like an orphan. Abort rather
+        # than delete on a path we cannot classify (fail closed). The WHOLE
+        # listing is vetted before the first delete: one escaping entry means
+        # the listing as such is not trustworthy, wherever in it the entry sits.
         for file_rel_path in all_files:
             norm_path = self._normalize_path(file_rel_path)
-
-            # Independent guard against the #45 class of bug: a listed path that
-            # escapes the table root can never be matched against the reachable
-            # set, so every live file would look like an orphan. Abort rather
-            # than delete on a path we cannot classify (fail closed).
             if norm_path == ".." or norm_path.startswith("../"):
                 raise GarbageCollectionAborted(
                     f"Aborting GC: storage listing under '{prefix}' returned a path outside "
                     f"the table root ({file_rel_path!r}). Reachability cannot be determined."
                 )
+
+        for file_rel_path in all_files:
+            norm_path = self._normalize_path(file_rel_path)
 
             if norm_path not in reachable_set:
                 # Potential orphan. Check age.
